@@ -50,20 +50,46 @@ def run_histories(chk, name, histories, modes=('sync', 'async'), nontrivial=None
     return bad
 
 
-def shrink_history(cfg, ops, still_bad):
-    """Greedy removal of operations while `still_bad(cfg, ops)` holds."""
+def shrink_history(name, cfg, ops, mode, want_prop, budget=12):
+    """Delta-debugging with every round's candidates evaluated in ONE coqc call.
+    `want_prop`: keep cases whose code has bit 2 (property) if True, else any non-zero code."""
     cur = list(ops)
-    changed = True
-    while changed and len(cur) > 1:
-        changed = False
-        for i in range(len(cur) - 1, -1, -1):
-            cand = cur[:i] + cur[i + 1:]
+    chunk = max(1, len(cur) // 2)
+    rounds = 0
+    while rounds < budget and len(cur) > 1:
+        rounds += 1
+        cands = []
+        for i in range(0, len(cur), chunk):
+            cand = cur[:i] + cur[i + chunk:]
+            if cand:
+                cands.append(cand)
+        terms, ok_cands = [], []
+        for cand in cands:
             try:
-                if still_bad(cfg, cand):
-                    cur = cand
-                    changed = True
+                results, dump = srv.run_history(cfg, cand, mode)
+                terms.append(hcase_term(cfg, cand, results, dump))
+                ok_cands.append(cand)
             except Exception:
                 pass
+        if not terms:
+            break
+        codes, errors = coqio.eval_cases(name + '_shr', IMPORTS_FMT % name.upper(), '', 'hcase', terms,
+                                         name + '_eval', shard=len(terms))
+        if errors:
+            break
+        hit = None
+        for j, cand in enumerate(ok_cands):
+            c = codes.get(j, 0)
+            if (c & 2) if want_prop else c:
+                hit = cand
+                break
+        if hit is not None:
+            cur = hit
+            chunk = max(1, min(chunk, len(cur) // 2))
+        elif chunk == 1:
+            break
+        else:
+            chunk = max(1, chunk // 2)
     return cur
 
 
